@@ -26,10 +26,11 @@
 (*   Eq, EqList, EqOther   ==  with a TrimMapping / a list of pairs / others    *)
 (*   Repr          repr(tm), str(tm)                                            *)
 (*   Copy          copy.deepcopy / pickle round trip (an independent object)    *)
-(* `hist` records the operations, `trail` the observable state after every     *)
-(* step (definition level: computed from `abs`), so that TLC can emit          *)
-(* histories which the driver (props/x_trimmap.py) replays into real objects,  *)
-(* comparing ALL observers after EVERY step.                                    *)
+(* `hist` records the operations, `trail` the state after every step.  TLC     *)
+(* emits histories together with the OBSERVATION of every state of the trail   *)
+(* (Obs, definition level: computed from `abs`); the driver                    *)
+(* (props/x_trimmap.py) replays them into real objects and compares ALL        *)
+(* observers after EVERY step.                                                  *)
 (*                                                                            *)
 (* The operators called ...Impl are code-shaped (they follow the statements of *)
 (* the methods on the concrete dict) but describe the INTENDED behaviour: where *)
@@ -174,13 +175,14 @@ Init == /\ live = {}
         /\ conc = [s \in 1..Slots |-> EmptyDict]
         /\ disk = [f \in 1..Files |-> NoFile]
         /\ res = NoRes /\ hist = <<>>
-        /\ trail = <<Obs({}, [s \in 1..Slots |-> {}], [f \in 1..Files |-> NoFile], NoRes)>>
+        /\ trail = << <<{}, [s \in 1..Slots |-> {}], [f \in 1..Files |-> NoFile], NoRes>> >>
 
-(* Log is the LAST conjunct of every action: it extends the history and records the observation
-   of the successor state (all other primed variables are determined by then) *)
+(* Log is the LAST conjunct of every action: it extends the history and records a snapshot of the successor
+   state (all other primed variables are determined by then); the OBSERVATION of every snapshot (Obs) is computed
+   when a history is emitted *)
 Log(op) == /\ (OpBudget = 0 \/ Cardinality({j \in DOMAIN hist : hist[j].op = op.op}) < OpBudget)
            /\ hist' = Append(hist, op)
-           /\ trail' = IF Emit THEN Append(trail, Obs(live', abs', disk', res')) ELSE trail   \* only kept when emitting
+           /\ trail' = IF Emit THEN Append(trail, <<live', abs', disk', res'>>) ELSE trail    \* only kept when emitting
 CanStep == Len(hist) < Depth
 Bind(s, P, d) == /\ live' = live \cup {s}
                  /\ abs' = [abs EXCEPT ![s] = P]
@@ -351,6 +353,7 @@ OpView == <<live, abs, conc, disk, res, Len(hist), IF hist = <<>> THEN <<>> ELSE
    identifies a step by its result, so an operation whose effect is absorbed (saving over an identical file, loading
    into a name that already holds that value) is only emitted from the first state it was seen in. *)
 TransView == <<OpView, IF hist = <<>> THEN <<>> ELSE trail[Len(trail) - 1]>>
-EmitInv == (Emit /\ hist # <<>>) => PrintT(<<"CASE", ToJson([hist |-> hist, trail |-> trail])>>)
-EmitFull == (Emit /\ Len(hist) = Depth) => PrintT(<<"CASE", ToJson([hist |-> hist, trail |-> trail])>>)
+ObsTrail == [i \in DOMAIN trail |-> Obs(trail[i][1], trail[i][2], trail[i][3], trail[i][4])]
+EmitInv == (Emit /\ hist # <<>>) => PrintT(<<"CASE", ToJson([hist |-> hist, trail |-> ObsTrail])>>)
+EmitFull == (Emit /\ Len(hist) = Depth) => PrintT(<<"CASE", ToJson([hist |-> hist, trail |-> ObsTrail])>>)
 =============================================================================
